@@ -12,13 +12,14 @@ def short(s,n=150):
 out=[]
 out.append('''Two sources of deliberately broken trees, none of them ever committed to `/repo`:
 
-**(a) Independent seeded changes** (`/verif/seeded/<property>/<k>/`, later rounds `r2-<k>` ... `r5-<k>`): for
+**(a) Independent seeded changes** (`/verif/seeded/<property>/<k>/`, later rounds `r2-<k>` ... `r6-<k>`): for
 every property a fresh sub-agent got *only* the text of the property and its own scratch worktree of
 `/repo` (nothing from `/verif`), and was asked for up to three realistic changes that break the
 property, still compile and keep the complete existing test-suite green (default and all features, doc
-tests), each needing something specific to manifest, with a demonstration test. This was done five
-times: round 1 at the start (60 changes), rounds 2 (59), 3 (59), 4 (57) and a short round 5 (11 changes
-for eight properties, against the final checks) on the repaired tree 93f4f67.
+tests), each needing something specific to manifest, with a demonstration test. This was done six
+times: round 1 at the start (60 changes), rounds 2 (59), 3 (59), 4 (57), a short round 5 (11 changes
+for eight properties) and a short round 6 (19 changes for the other twelve properties, 25 minutes per
+agent) on the repaired tree 93f4f67.
 Round 2 asked for mechanisms other than the obvious single-site edit (stale caches, size thresholds,
 multi-step sequences, pairs of edits that are harmless alone); round 3 for changes in shared helper
 code, value- and spelling-specific behaviour, error paths and boundaries, and sequences of three or
@@ -26,7 +27,10 @@ more calls, and named six mechanisms of the earlier rounds not to be delivered a
 interplay of features (unfolded parsing x folding x conversions x operator application x substitution x
 differentiation x serde x printing), other instantiations than `FlatEx<f64>`, rarely used entry points,
 corner values reaching an operator only through an expression, and bookkeeping skipped on shortcut and
-error paths (twelve earlier mechanisms excluded; eighteen in round 5). All 246 delivered
+error paths (twelve earlier mechanisms excluded; eighteen in round 5); round 6 for two cooperating sites,
+multi-step histories, size thresholds other than 16/32/64, rarely used operators of the built-in tables
+that are wrong only for a narrow class of arguments, and the narrow instantiations (f32, Val<i8..>,
+custom tables with unusual priorities). All 265 delivered
 changes were confirmed independently (`tools/confirm_seed.sh`: demo passes on the clean tree, fails
 with the patch; both suites pass with the patch; logs in `seeded/CONFIRM*.log`). Two parser patches
 (C08/1, C08/2) were rebased onto the later F16 repair and re-confirmed. The quick check of the seeded
@@ -34,7 +38,9 @@ property was then run against each change in a scratch copy (`tools/seed_matrix.
 `VIOLATION` = caught); changes missed by their own property's check were additionally run against all
 twenty checks, the checks were extended (list below the table), and finally the whole matrix (rounds
 1-4) was run again with the final checks; round 5 found nothing to extend (10 of 11 caught at once, the
-eleventh is a licensed regrouping). Detection does not hinge on the seed of the generators: the 75
+eleventh is a licensed regrouping); round 6 was run against the checks as they were plus the two
+extensions made while the agents worked (unary towers, cross-instantiation histories; see the list
+below the table). Detection does not hinge on the seed of the generators: the 75
 changes seeded for the numerically decided properties (C01, C05, C09, C10, C12, C18) were also run under
 `VERIF_SEED=2`, with the same verdict for every one of them.
 ''')
